@@ -240,8 +240,8 @@ Lemma dline_ok_cur_split ds : Forall dline_ok_cur ds ->
 Proof.
   intros H. split.
   - eapply Forall_impl; [|exact H]. intros d [V D]. split; [exact V|]. destruct d; auto.
-  - destruct nt_skips_comment_lines; [left; reflexivity | right].
-    eapply Forall_impl; [|exact H]. intros d [_ D]. destruct d; cbn in *; try reflexivity; discriminate D.
+  - revert H. unfold dline_ok_cur, dline_dom_cur. destruct nt_skips_comment_lines; intros H; [left; reflexivity | right].
+    eapply Forall_impl; [|exact H]. intros d [_ D]. destruct d; cbn [orb negb rc_F9] in *; try reflexivity; discriminate D.
 Qed.
 
 Lemma dline_ok_file_cur_split ds : Forall dline_ok_file_cur ds ->
@@ -249,8 +249,8 @@ Lemma dline_ok_file_cur_split ds : Forall dline_ok_file_cur ds ->
 Proof.
   intros H. split.
   - eapply Forall_impl; [|exact H]. intros d [V D]. split; [exact V|]. destruct d; auto.
-  - destruct nt_skips_comment_lines; [left; reflexivity | right].
-    eapply Forall_impl; [|exact H]. intros d [_ D]. destruct d; cbn in *; try reflexivity; discriminate D.
+  - revert H. unfold dline_ok_file_cur, dline_dom_file_cur. destruct nt_skips_comment_lines; intros H; [left; reflexivity | right].
+    eapply Forall_impl; [|exact H]. intros d [_ D]. destruct d; cbn [orb negb rc_F9_file] in *; try reflexivity; discriminate D.
 Qed.
 
 Theorem document_lines_partial_cur allow ds : Forall dline_ok_cur ds ->
